@@ -1353,6 +1353,38 @@ func ruleLEX6(c *Ctx) {
 		}
 		return true
 	})
+	// greedy and non-greedy accepting states are kept apart: the merged state's NonGreedy is the OR of
+	// its members (NG-2), so a greedy member of such a group would stop at its first accepting position
+	okNG := false
+	ast.Inspect(sp.Body, func(n ast.Node) bool {
+		ifs, ok := n.(*ast.IfStmt)
+		if !ok || !addsTo(ifs.Body, moveSet) {
+			return true
+		}
+		for _, d := range disjuncts(ifs.Cond) {
+			be, ok := ast.Unparen(d).(*ast.BinaryExpr)
+			if !ok || be.Op != token.NEQ {
+				continue
+			}
+			if isField(info, be.X, "lexergen/dfa", "State", "NonGreedy") && isField(info, be.Y, "lexergen/dfa", "State", "NonGreedy") &&
+				rootVar(be.X) != nil && rootVar(be.Y) != nil && rootVar(be.X) != rootVar(be.Y) {
+				okNG = true
+			}
+		}
+		return true
+	})
+	if !okNG {
+		// or the initial partition already separates them: the group constant depends on NonGreedy
+		for _, call := range addCalls {
+			for _, f := range pathConds(info, fdPar, call) {
+				if isField(info, f.e, "lexergen/dfa", "State", "NonGreedy") {
+					okNG = true
+				}
+			}
+		}
+	}
+	c.check(okNG, rule, "dfa.subPartition/non-greedy-difference", p.Pos(sp.Pos()), "a state whose NonGreedy mark differs from the representative's is split off: a greedy accepting state is never merged into a non-greedy one",
+		"greedy and non-greedy accepting states of one rule can be merged; the merged state is non-greedy (OR of its members), so the greedy alternative stops at its first accepting position (e.g. ITEM = 'x' 'a'*? | 'y' 'a'* lexes \"yaa\" as ITEM(y), ERROR)")
 	c.check(okTrans, rule, "dfa.subPartition/transition-difference", p.Pos(sp.Pos()), "a state whose transition on some input leads to another group than the representative's is split off", "states with transitions into different groups are not split")
 	c.check(okAcc, rule, "dfa.subPartition/accepting-rule-difference", p.Pos(sp.Pos()), "accepting states whose accepting NFA states differ (different rules) are split off", "accepting states of different rules can be merged: the wrong rule's actions would run")
 	// inputs cover both states: the set iterated around the comparison is filled from the
